@@ -75,6 +75,7 @@ def hostile(spec: dict, rng) -> list[str]:  # noqa: ANN001
             a = x()
             comps.append({"kind": "reaction", "name": "hms", "fn": L(tb.t_modconst), "args": [a, k()], "stoich": {a: -1.0}})
             comps.append({"kind": "derived", "name": "hma", "fn": L(tb.t_modattr), "args": [x(), k()]})
+            comps.append({"kind": "derived", "name": "hcn", "fn": L(tb.t_constnames), "args": [x(), k()]})  # attributes called tau, e, pi
         elif kind == "dup_args":
             s = x()
             comps.append({"kind": "derived", "name": "hd1", "fn": L(tr.t_mul), "args": [s, s]})
